@@ -50,6 +50,10 @@ def cases(tier, seed):
     n_real = 12 if tier == "quick" else 200
     for i in range(n_real):
         out.append(dict(part="real", seed=seed, i=i))
+    # the same gate entered through the historical evaluation (the command line's --historical): the estimate run it
+    # starts for every historical election must end in the dedicated error too, not in an empty answer
+    for i in range(6 if tier == "quick" else 60):
+        out.append(dict(part="histgate", seed=seed, i=i))
     n_dup = 12 if tier == "quick" else 40
     for i in range(n_dup):
         out.append(dict(part="dup", seed=seed, i=i))
@@ -77,7 +81,82 @@ def minimum_for(estimator, alphas):
 
 
 def run_case(spec, inputs=None):
-    return dict(gate=run_gate, sweep=run_sweep, real=run_real, dup=run_dup)[spec["part"]](spec)
+    return dict(gate=run_gate, sweep=run_sweep, real=run_real, dup=run_dup, histgate=run_histgate)[spec["part"]](spec)
+
+
+def run_histgate(spec):
+    import copy
+    import json
+    import os
+    import shutil
+    import tempfile
+
+    out = dict(violations=[], counters={}, sets={}, sigs=[])
+    cm = harness.client_mod()
+    i = spec["i"]
+    estimator = ["nonparametric", "gaussian"][i % 2]
+    alphas = [[0.9], [0.7, 0.9], [0.5]][i % 3]
+    nmin = int(math.ceil(minimum_for(estimator, alphas)))
+    hist_id = "2026-11-03_USA_G"
+    cwd0 = os.getcwd()
+    for off in (-1, 0, 4):
+        n = nmin + off
+        if n < 1:
+            continue
+        el, feed, call, _ = clean_case(spec, estimator, n, alphas, salt=90 + off)
+        cfg = copy.deepcopy(el.config)
+        cfg[el.election_id][0]["historical_election"] = [hist_id]
+        hist_cfg = {hist_id: copy.deepcopy(el.config[el.election_id])}
+        hist = el.pre.copy()
+        tr = el.truth.set_index("geographic_unit_fips")
+        for c in ("turnout", "dem", "gop"):
+            hist[f"results_{c}"] = [int(tr.loc[f, c] * 0.9) + 3 for f in hist.geographic_unit_fips]
+        scratch = tempfile.mkdtemp(prefix="verif_c14_")
+        res = exc = None
+        try:
+            os.makedirs(os.path.join(scratch, "config"))
+            with open(os.path.join(scratch, "config", f"{el.election_id}.json"), "w") as f:
+                json.dump(cfg, f)
+            with open(os.path.join(scratch, "config", f"{hist_id}.json"), "w") as f:
+                json.dump(hist_cfg, f)
+            ddir = os.path.join(scratch, "data", hist_id, el.office)
+            os.makedirs(ddir)
+            hist.to_csv(os.path.join(ddir, f"data_{el.geo_type}.csv"), index=False)
+            os.chdir(scratch)
+            with harness.patched() as p:
+                harness.fast_boot_sigma(p, 100)
+                try:
+                    res = cm.HistoricalModelClient().get_historical_evaluation(
+                        feed.copy(deep=True), el.election_id, el.office, list(call["estimands"]), list(alphas), 100,
+                        el.geo_type, features=list(call["features"]), aggregates=["postal_code"], fixed_effects={},
+                        pi_method=estimator, save_output=[], model_parameters=copy.deepcopy(call["model_parameters"]))
+                except Exception as e:  # noqa: BLE001
+                    import traceback
+
+                    e._verif_tb = traceback.format_exc()
+                    exc = e
+        finally:
+            os.chdir(cwd0)
+            shutil.rmtree(scratch, ignore_errors=True)
+        out["counters"]["histgate_runs"] = out["counters"].get("histgate_runs", 0) + 1
+        outcome = "ok" if exc is None else type(exc).__name__
+        where = f"historical evaluation, {estimator} alphas={alphas}, {n} reporting units, minimum {nmin}"
+        if off < 0:
+            if not (exc is not None and type(exc) is cm.ModelNotEnoughSubunitsException):
+                got = outcome if exc is not None else f"an answer ({sorted(res) if isinstance(res, dict) else type(res).__name__})"
+                out["violations"].append(dict(key=f"C14/historical/too-few-units-but-{outcome}",
+                                              msg=f"{where}: expected ModelNotEnoughSubunitsException, got {got}",
+                                              witness=dict(exc=harness.exc_info(exc))))
+        else:
+            if exc is not None or not (isinstance(res, dict) and hist_id in res):
+                info = harness.exc_info(exc)
+                out["violations"].append(dict(key=f"C14/historical/{estimator}/enough-units-but-{outcome}",
+                                              msg=f"{where}: " + (f"{info['type']}: {info['msg']} at {info['where']}" if info
+                                                                   else f"no evaluation for {hist_id} returned"),
+                                              witness=dict(exc=info)))
+        out["sigs"].append(["histgate", estimator, alphas[0], off, outcome])
+    out["nontrivial"] = True
+    return out
 
 
 def clean_case(spec, estimator, n_reporting, alphas, n_total=None, salt=0):
@@ -89,6 +168,7 @@ def clean_case(spec, estimator, n_reporting, alphas, n_total=None, salt=0):
              feed_p_strange=0.0, feed_boundary=False, threshold=100, policy="drop", alphas=list(alphas),
              aggregates=["postal_code", "unit"], fixed_effects={}, features=[] if estimator != "bootstrap" else None,
              n_estimands=1, feed_frac_reporting=1.0, null_unused=False, extra_state_rows=False,
+             allow_pointer_config=False,
              mp=dict(fit_turnout_outlier_model=False, fit_margin_outlier_model=False, turnout_factor_lower=0.0,
                      turnout_factor_upper=1e9))
     if estimator == "bootstrap":
